@@ -28,6 +28,23 @@ def _summary(path, with_atten=True):
     return d
 
 
+def _riemann_slack(path, ice, dz=1.0):
+    """Per-frequency bound on |left sum - right sum| of ds/L_att over the path's z-steps."""
+    pts = [np.asarray(p, dtype=float) for p in path._points]
+    fa = np.array(FREQS)
+    out = np.zeros(len(FREQS))
+    for p1, p2 in zip(pts[:-1], pts[1:]):
+        if p1[2] == p2[2]:
+            continue
+        n_steps = int(abs(p2[2] - p1[2]) / dz) + 2
+        step = float(np.linalg.norm(p2 - p1)) / n_steps
+        zs = np.linspace(p1[2], p2[2], 201)
+        g = 1.0 / np.asarray(ice.attenuation_length(zs, fa), dtype=float)
+        g = g.reshape(len(zs), -1) if g.shape[0] == len(zs) else g.reshape(-1, len(zs)).T
+        out += step * np.sum(np.abs(np.diff(g, axis=0)), axis=0)
+    return out
+
+
 def _trace(kind, f, t, ice, **kw):
     from pyrex.ray_tracing import SpecializedRayTracer, BasicRayTracer, UniformRayTracer
     if kind == "specialized":
@@ -243,7 +260,8 @@ def check_move_gradient(case, rec):
             tol_dir += 1e-5
         noise = _f17_noise(ice_spec, f, t, [p1, p2]) if case["tracer"] == "specialized" else 0.0
         mark = ""
-        if abs(a["L"] - b["L"]) > tol_L and abs(a["L"] - b["L"]) <= tol_L + noise:
+        dL, dT, tn = abs(a["L"] - b["L"]), abs(a["T"] - b["T"]), ice_spec["n0"] / C
+        if (dL > tol_L or dT > tol_L * tn) and dL <= tol_L + noise and dT <= (tol_L + noise) * tn:
             mark = " " + c01.F17_MARK
         require(abs(a["L"] - b["L"]) <= tol_L,
                 "solution %d: path_length changes from %r to %r (tol %.3g); %s%s", idx, a["L"], b["L"],
@@ -353,8 +371,14 @@ def check_uniform(case, rec):
         pb = B[best]
         require(abs(pa["T"] - pb["T"]) <= 1e-12 * max(pa["T"], 1e-30) + 1e-20, "tof differs; %s", geom)
         require(abs(pa["T"] - n * pa["L"] / C) <= 1e-12 * pa["T"] + 1e-20, "tof != n L / c; %s", geom)
-        require(float(np.max(np.abs(pa["A"] - pb["A"]))) <= 2e-3,
-                "attenuation %r one way, %r the other; %s", pa["A"].tolist(), pb["A"].tolist(), geom)
+        # the uniform path sums ds/L_att over left end points of z-steps of at most 1 m (documented
+        # `dz`); the reversed path uses the right end points of the same steps, so the two exponents
+        # differ by at most (step length) x (total variation of 1/L_att along the segment)
+        slack = _riemann_slack(sf[i], ice)
+        dif = np.abs(np.log(np.maximum(pa["A"], 1e-300)) - np.log(np.maximum(pb["A"], 1e-300)))
+        require(bool(np.all((dif <= 1.5 * slack + 1e-9) | (np.maximum(pa["A"], pb["A"]) < 1e-290))),
+                "attenuation %r one way, %r the other (exponents may differ by %r from the 1 m step "
+                "rule); %s", pa["A"].tolist(), pb["A"].tolist(), (1.5 * slack).tolist(), geom)
     # translation + rotation
     ang = case["angle"]
     sh = np.array([case["shift"][0], case["shift"][1], 0.0])
